@@ -16,6 +16,7 @@ import QmcProofs.LoopConsistent
 import QmcProofs.LoopSingleSite
 import QmcProofs.LoopNoPanic
 import QmcProofs.LoopPath
+import QmcProofs.LoopKernelCut
 import QmcProofs.Generic
 import QmcProps.C16
 import QmcProps.C08
@@ -511,6 +512,79 @@ theorem loop_path_balance_retraced (w : Nat → List Bool → List Bool → Rat)
   rw [LoopC.pathProb_rev]
   exact loop_path_balance w cfg rs
 
+
+/-! ### 3d. the loop update as a kernel: reverse run and detailed balance, truncated at `n` visits -/
+
+/-- **The model follows the exit-driven walk**: whenever the draw of a visit chooses the exit
+`ex` (`LoopC.exitOf`), `loopBody` does to state, string and head exactly what `LoopC.stepEx` does
+with that exit (or panics exactly when `stepEx` has no link to follow). -/
+theorem loop_step_follows_exit (w : Nat → List Bool → List Bool → Rat) (init : Nat × Leg) (pos : Nat)
+    (ent : Leg) (s : LoopSt) (op : Op) (ex : Leg) (h : LoopC.exitOf w pos ent s = some (op, ex)) :
+    match LoopC.stepEx init pos ent ⟨s.state, s.slots⟩ ex with
+    | some (c', res) =>
+      (loopBody w init pos ent s).1.state = c'.state ∧ (loopBody w init pos ent s).1.slots = c'.slots ∧
+        (loopBody w init pos ent s).2 = res
+    | none => (loopBody w init pos ent s).2 = none ∧ (loopBody w init pos ent s).1.rs.panicked = true :=
+  LoopC.loopBody_stepEx w init pos ent s op ex h
+
+/-- **Every closed run of the model is one of the enumerated loops**: its trace is a closed walk
+from the start leg to its result, listed in `LoopC.loopsOf n cfg` for every `n` ≥ its number of
+visits — `loopsOf` is generated from the model's own start map (`pickLeg`) and exit list
+(`legsOf`). -/
+theorem loop_model_run_is_enumerated (w : Nat → List Bool → List Bool → Rat) (cfg : Config) (rs : RS)
+    (hn : countOps cfg.slots ≠ 0) (hcl : LoopClosed (loopUpdate w cfg rs).2) (n : Nat)
+    (hlen : (LoopC.loopUpdateTrace w cfg rs).length ≤ n) :
+    ∃ init, (init, LoopC.loopUpdateTrace w cfg rs, (loopUpdate w cfg rs).1) ∈ LoopC.loopsOf n cfg :=
+  LoopC.loopUpdate_mem_loopsOf w cfg rs hn hcl.1 hcl.2 n hlen
+
+/-- **Reverse run.** A closed walk from `c` (well-formed ops, canonical diagonal tags, periodic
+world lines: `LoopC.GoodL`) to `c'`, retraced backwards from the exit leg of its last visit, is a
+closed walk of the same exit-driven dynamics from `c'` that ends in EXACTLY `c`, string and state:
+the ops the retracing walk finds are the rewritten ops, it writes back the original ops (the
+recomputed tag is the original one because tags are canonical), and the state returns because
+both ends are periodic. `c'` is `GoodL` again. (At the level of scripts this is false in general:
+an exit whose probability interval contains no point of the 2^-52 grid of `gen_range(0.0..t)`
+cannot be chosen by any script; the statement is about the idealised branching, as in the
+probability-tree semantics.) -/
+theorem loop_reverse_run {init : Nat × Leg} {c c' : Config} {tr : List LoopC.Visit}
+    (h : LoopC.Walk init init.1 init.2 c tr c') (hg : LoopC.GoodL c)
+    (hh : LoopC.HeadOK c.slots init.1 init.2) :
+    ∃ vm, tr.getLast? = some vm ∧
+      LoopC.Walk (vm.pos, vm.ex) vm.pos vm.ex c' (tr.map LoopC.Visit.rev).reverse c ∧
+      LoopC.HeadOK c'.slots vm.pos vm.ex ∧ LoopC.GoodL c' :=
+  h.reverse hg hh
+
+/-- **Detailed balance of the loop kernel truncated at `n` vertex visits.**
+`LoopC.loopKn w n c c'` = Σ over the closed loops of at most `n` visits from `c` to `c'` of
+`1/(2Σk) · Π exitProb` (a finite sum by construction: `loopsOf`). For every `n`, every weight
+function and all `GoodL` configurations: `W(c)·K_n(c,c') = W(c')·K_n(c',c)`, `W` = product of the
+stored matrix elements. (Retracing is a length-preserving bijection between the loops `c → c'`
+and `c' → c`, `LoopC.revLoop_mem`; per loop `LoopC.loop_term_balance`.) -/
+theorem loop_kernel_reversible_truncated (w : Nat → List Bool → List Bool → Rat) (n : Nat)
+    (c c' : Config) (hg : LoopC.GoodL c) (hg' : LoopC.GoodL c') :
+    LoopC.slotsWeight w c.slots * LoopC.loopKn w n c c' =
+      LoopC.slotsWeight w c'.slots * LoopC.loopKn w n c' c :=
+  LoopC.loopKn_reversible w n c c' hg hg'
+
+/-- **… with the true SSE measure** `π = configWeight·1_Good` of `KernelInvarianceCut`
+(`β^n (L−n)!/L! · Π matrix elements` on Consistent ∧ Legal configurations, 0 elsewhere), for
+non-negative matrix elements: `Reversible π (loopKn H.w n)` on ALL configurations — a loop from a
+Good configuration reaches a non-Good one only with probability 0, and loops keep `L` and `n`. -/
+theorem loop_kernel_reversible_cut_truncated (H : Ham) [DecidablePred (Good H)] (β : Rat)
+    (hw : ∀ b i o, 0 ≤ H.w b i o) (n : Nat) :
+    Qmc.Dist.Reversible (Qmc.Kernel.cutTo (Good H) (configWeight H β)) (LoopC.loopKn H.w n) :=
+  LoopC.loopKn_reversible_cut H β hw n
+
+/-- **What the truncated kernel does to the measure** (exact): flow into `b` from a finite set
+`S` = `π(b)` · (mass `K_n` sends from `b` into `S`). The truncated kernel is sub-stochastic
+(missing mass = probability that the walk needs more than `n` visits), so this is
+sub-invariance, and invariance exactly where the row mass is 1. -/
+theorem loop_kernel_flow_truncated (H : Ham) [DecidablePred (Good H)] (β : Rat)
+    (hw : ∀ b i o, 0 ≤ H.w b i o) (n : Nat) (S : Finset Config) (b : Config) :
+    ∑ a ∈ S, Qmc.Kernel.cutTo (Good H) (configWeight H β) a * LoopC.loopKn H.w n a b =
+      Qmc.Kernel.cutTo (Good H) (configWeight H β) b * ∑ a ∈ S, LoopC.loopKn H.w n b a :=
+  LoopC.loopKn_flow H β hw n S b
+
 /-! ### 4. cluster gate -/
 
 /-- samplers reachable through the public interface (flags part) -/
@@ -854,6 +928,14 @@ example : (LoopC.loopUpdateTrace wlW wlCfg (RS.ofScript [0, 0, 0, 0])).map
       (fun v => (v.pos, v.ent, v.ex)) = [(0, ⟨0, true⟩, ⟨0, false⟩), (1, ⟨0, true⟩, ⟨0, false⟩)] ∧
     startLegProb wlCfg.slots *
       LoopC.pathProb wlW (LoopC.loopUpdateTrace wlW wlCfg (RS.ofScript [0, 0, 0, 0])) = 1 / 16 := by
+  decide +kernel
+
+
+/-- the truncated kernel on the two-op world line: the whole-line flip has probability
+`4 · 1/4 · (1/2)² = 1/4` (four start legs, two pass-through exits) within two visits, and none
+within one visit -/
+example : LoopC.loopKn wlW 2 wlCfg ⟨[true], [some (wlOp true), some (wlOp true)]⟩ = 1 / 4 ∧
+    LoopC.loopKn wlW 1 wlCfg ⟨[true], [some (wlOp true), some (wlOp true)]⟩ = 0 := by
   decide +kernel
 
 /-- a walk that has not closed when the script ends is flagged, and in general not periodic:
